@@ -642,7 +642,7 @@ pub fn fam_retry(tier: Tier) -> Vec<Config> {
             for conc in [Some(1usize), Some(2)] {
                 for serial in [false, true] {
                     for (before, after) in hooks4() {
-                        for src in ["tag", "cli", "builder"] {
+                        for src in ["tag", "cli", "builder", "both"] {
                             let mut tags: Vec<String> = vec![];
                             if serial {
                                 tags.push("serial".into());
@@ -666,12 +666,24 @@ pub fn fam_retry(tier: Tier) -> Vec<Config> {
                                         cfg.retry_after_cli = Some(d);
                                     }
                                 }
-                                _ => {
+                                "builder" => {
                                     if n > 0 {
                                         cfg.retries_builder = Some(n);
                                     }
                                     if delay {
                                         cfg.retry_after_builder = Some(d);
+                                    }
+                                }
+                                _ => {
+                                    // CLI must win over differing builder values
+                                    if n == 0 {
+                                        continue;
+                                    }
+                                    cfg.retries_cli = Some(n);
+                                    cfg.retries_builder = Some(n + 1);
+                                    if delay {
+                                        cfg.retry_after_cli = Some(d);
+                                        cfg.retry_after_builder = Some(Duration::from_secs(1));
                                     }
                                 }
                             }
@@ -1120,6 +1132,73 @@ pub fn fam_l1x(tier: Tier) -> Vec<Config> {
     out
 }
 
+/// C18 end to end: builder and CLI values that differ, nearest tags, filters;
+/// what the runner really does (budget on the first event, delay, limit,
+/// fail-fast) must be what the precedence of the statement resolves to.
+pub fn fam_resolve(_tier: Tier) -> Vec<Config> {
+    let mut out = Vec::new();
+    let s1 = Duration::from_secs(1);
+    let s5 = Duration::from_secs(5);
+    for b_retry in [None, Some(1usize), Some(2)] {
+        for c_retry in [None, Some(1usize), Some(2)] {
+            for b_delay in [None, Some(s1), Some(s5)] {
+                for c_delay in [None, Some(s5)] {
+                    for tag in ["", "retry(1)", "retry.after(5s)"] {
+                        for b_filter in [None, Some("@x"), Some("not @x")] {
+                            for c_filter in [None, Some("@x"), Some("not @x")] {
+                                let mut c = base(String::new());
+                                let mut tags = vec!["x"];
+                                if !tag.is_empty() {
+                                    tags.push(tag);
+                                }
+                                c.feats = vec![feat(vec![scen(&tags, &[M]), scen(&[], &[M])])];
+                                c.items = vec![Item::Feat(0)];
+                                c.conc_builder = Some(Some(2));
+                                c.retries_builder = b_retry;
+                                c.retries_cli = c_retry;
+                                c.retry_after_builder = b_delay;
+                                c.retry_after_cli = c_delay;
+                                c.retry_filter_builder = b_filter.map(str::to_owned);
+                                c.retry_filter_cli = c_filter.map(str::to_owned);
+                                c.plan.gates = GateMode::Steps;
+                                let infos = c.scen_infos();
+                                // the first scenario always fails
+                                c.plan.outcomes.insert(infos[0].calls[0].key.clone(), vec![Outcome::PanicString]);
+                                c.bound = Some(1);
+                                c.max_execs = 300;
+                                c.name = format!(
+                                    "resolve/R|b{b_retry:?}|c{c_retry:?}|bd{b_delay:?}|cd{c_delay:?}|t{tag}|bf{b_filter:?}|cf{c_filter:?}"
+                                );
+                                out.push(c);
+                            }
+                        }
+                    }
+                }
+            }
+        }
+    }
+    for b_conc in [None, Some(Some(1usize)), Some(Some(2)), Some(None)] {
+        for c_conc in [None, Some(1usize), Some(2)] {
+            for (ffb, ffc) in [(false, false), (true, false), (false, true)] {
+                let mut c = base(String::new());
+                c.feats = vec![feat((0..3).map(|_| scen(&[], &[M])).collect())];
+                c.items = vec![Item::Feat(0)];
+                c.conc_builder = b_conc;
+                c.conc_cli = c_conc;
+                c.fail_fast_builder = ffb;
+                c.fail_fast_cli = ffc;
+                c.plan.gates = GateMode::Steps;
+                c.expect_conservation = !(ffb || ffc);
+                let infos = c.scen_infos();
+                c.plan.outcomes.insert(infos[0].calls[0].key.clone(), vec![Outcome::PanicString]);
+                c.name = format!("resolve/K|b{b_conc:?}|c{c_conc:?}|ff{}{}", u8::from(ffb), u8::from(ffc));
+                out.push(c);
+            }
+        }
+    }
+    out
+}
+
 pub fn family(name: &str, tier: Tier) -> Vec<Config> {
     match name {
         "seq" => fam_seq(tier),
@@ -1132,6 +1211,7 @@ pub fn family(name: &str, tier: Tier) -> Vec<Config> {
         "l1" => fam_l1(tier),
         "verdict" => fam_verdict(tier),
         "l1x" => fam_l1x(tier),
+        "resolve" => fam_resolve(tier),
         other => panic!("unknown family {other}"),
     }
 }
